@@ -122,7 +122,8 @@ def r92(ctx):
             ctx.ob("R9.2", fv.must_pass(sb, ee) and bool(ee), f"{b.name}/ok-after-all-outputs",
                    "validate_sweep can succeed before all outputs were examined", where=f"{b.file}:{ln}",
                    sample="Ok dominated by iterator exhaustion")
-    R.mismatch_refused(ctx, "R9.2", b, lambda a, c: a.endswith("tx.version") and "TWO" in c, f"{b.name}/version", "sweep tx.version vs 2")
+    R.mismatch_refused(ctx, "R9.2", b, lambda a, c: a.endswith("tx.version") and ("TWO" in c or R.is_new_const(c)), f"{b.name}/version",
+                       "sweep tx.version vs 2")
     # per kind
     lag = None
     for fn in ("validate_delayed_sweep", "validate_counterparty_htlc_sweep", "validate_justice_sweep"):
@@ -158,23 +159,34 @@ def r92(ctx):
                 r0 = render(nvv.expr(c.args[0]))
                 r1 = render(nvv.expr(c.args[1]))
                 if "seq" in r1:
-                    seq_contains.append((bi, c, r0))
+                    seq_contains.append((bi, c, r0, c.args[1]))
+            # the same membership test spelled `valid_seqs.iter().any(|s| *s == seq)`
+            if nm.endswith("Iterator>::any") and len(c.args) == 2 and "valid_seqs" in render(nvv.expr(c.args[0])) and c.cls:
+                env = R.closure_env(ctx, vb, c.cls[0])
+                seq_ops = [k for k, v_ in env.items() if "sequence" in render(v_)]
+                eqs = R.closure_calls(p, c.cls[0], lambda n: "cmp::PartialEq" in n) or True
+                if seq_ops:
+                    seq_contains.append((bi, c, render(nvv.expr(c.args[0])), None))
         if fn == "validate_delayed_sweep":
             R.mismatch_refused(ctx, "R9.2", vb, lambda a, c: "sequence" in a and c.endswith("setup.counterparty_selected_contest_delay"),
                                f"{vb.name}/sequence", "delayed sweep sequence vs counterparty_selected_contest_delay")
         else:
             ctx.ob("R9.2", len(seq_contains) == 1, f"{vb.name}/sequence-check", f"{len(seq_contains)} sequence membership checks",
                    where=f"{vb.file}:{vb.line}")
-            for bi, c, r0 in seq_contains:
+            for bi, c, r0, seq_arg in seq_contains:
                 te = vv.result_edges(bi, c, "ok")
                 for sb, ln in succ:
                     ctx.ob("R9.2", vv.must_pass(sb, te) and bool(te), f"{vb.name}/sequence-required",
                            f"{fn} can accept a sweep whose input sequence is not in the allowed set", where=f"{vb.file}:{ln}",
                            sample="Ok dominated by valid_seqs.contains(seq)")
-                e = nvv.expr(c.args[1])
-                ctx.ob("R9.2", "tx.input[0].sequence" in render(vv.expr(c.args[1])), f"{vb.name}/sequence-operand",
-                       f"sequence operand is `{render(vv.expr(c.args[1]))[:80]}`", where=f"{vb.file}:{c.line}")
-                defs = _defs_of(nvv, "valid_seqs")
+                if seq_arg is not None:
+                    so = render(vv.expr(seq_arg))
+                else:
+                    env = R.closure_env(ctx, vb, c.cls[0])
+                    so = " ".join(render(v_) for v_ in env.values())
+                ctx.ob("R9.2", "tx.input[0].sequence" in so, f"{vb.name}/sequence-operand",
+                       f"sequence operand is `{so[:80]}`", where=f"{vb.file}:{c.line}")
+                defs = R.all_defs(nvv, "valid_seqs")
                 if fn == "validate_justice_sweep":
                     ok = defs and all("NON_ANCHOR_SEQS" in d for d in defs)
                 else:
